@@ -327,6 +327,31 @@ func (r *RNG) AnyBits() ref.Bits {
 		return ref.Encode(r.Bool(), new(big.Int), r.Exp())
 	case 5: // uniform bits
 		return ref.Bits{Hi: r.U64(), Lo: r.U64()}
+	case 7: // NaN / sNaN / Inf with a structured tail: all zero (the canonical forms other implementations emit), low
+		// word zero, high tail zero, a single bit, all ones, small operation-code-like payloads
+		prefix := []uint64{0x7c00_0000_0000_0000, 0x7e00_0000_0000_0000, 0x7800_0000_0000_0000}[r.Intn(3)]
+		b := ref.Bits{Hi: prefix | (r.U64() & 0x8000_0000_0000_0000)}
+		switch r.Intn(7) {
+		case 0: // all zero
+		case 1: // low word zero, garbage above
+			b.Hi |= r.U64() & 0x01ff_ffff_ffff_ffff
+		case 2: // high tail zero, garbage below
+			b.Lo = r.U64()
+		case 3: // one bit
+			if k := r.Intn(121); k < 64 {
+				b.Lo = 1 << uint(k)
+			} else {
+				b.Hi |= 1 << uint(k-64)
+			}
+		case 4: // all ones
+			b.Hi |= 0x01ff_ffff_ffff_ffff
+			b.Lo = ^uint64(0)
+		case 5: // payload shaped like the library's own: operation byte and two operand-class bytes, in and out of range
+			b.Lo = uint64(r.Intn(40)) | uint64(r.Pick(0, 1, 2, 5, 6, 7, 8, 9, 255, r.Intn(256)))<<8 | uint64(r.Pick(0, 1, 6, 7, 8, 255, r.Intn(256)))<<16
+		default:
+			b.Lo = uint64(r.Intn(256))
+		}
+		return b
 	case 6: // uniform bits, steering form forced
 		b := ref.Bits{Hi: r.U64() | 0x6000_0000_0000_0000, Lo: r.U64()}
 		if b.Hi&0x7800_0000_0000_0000 == 0x7800_0000_0000_0000 {
